@@ -79,7 +79,11 @@ func (r *Reader) readSecondStage(bufMeta []bufferMeta) (rb []byte, err error) {
 				uint32(varRecLen), uint32(numVarRecords), uint32(md.Intervals), uint64(intervalStartEpoch))
 
 			// rb = append(rb, rbTemp...)
-			if (rbCursor + len(rbTemp)) > totalDatalen {
+			// grow until the interval fits (doubling once is not enough for highly compressible data)
+			for (rbCursor + len(rbTemp)) > totalDatalen {
+				if totalDatalen == 0 {
+					totalDatalen = len(rbTemp)
+				}
 				totalDatalen += totalDatalen
 				rb2 := make([]byte, totalDatalen)
 				copy(rb2[:rbCursor], rb[:rbCursor])
